@@ -895,3 +895,42 @@ Example C08_tr_viop_run : let run := fun (f : nat) (args : list Z) (xr xo : Z) =
 Proof. exact TrViOp.op_run_examples. Qed.
 Local Open Scope N_scope.
 Local Open Scope Z_scope.
+
+(* ---------------------------------------------------------------------------------------------------------------------- *)
+(* The byte-level texts of the C theorems above ARE the texts of the interpreter ViDefs.v (coq/TrViOpModel.v; b = map chop lines is the
+   character view of the buffer): uc_sub on the bytes = sub_l on the characters (offsets negative or at most the number of characters),
+   the text handed to reg_put = flat (region_text b g) for a region record g whose rows exist and whose offsets lie within their lines,
+   the line a character-wise delete hands to lbuf_edit = flat of the replacement text of ViDefs.vi_delete; under the same conditions the
+   side conditions region_in / sub_in of the C theorems hold. *)
+From NV Require TrViOpModel.
+Local Close Scope Z_scope.
+Local Close Scope N_scope.
+Theorem C08_tr_uc_sub_model : forall (s : bytes) (b e : Z), nonul s -> TrViOpModel.off_ok (chop s) b -> TrViOpModel.off_ok (chop s) e -> UcDefs.uc_sub s b e = Some (flat (sub_l (chop s) b e)).
+Proof. exact TrViOpModel.sub_model. Qed.
+Print Assumptions C08_tr_uc_sub_model.
+
+Theorem C08_tr_region_text_model : forall (lines : list bytes) (g : region) (ln : Z) (s1 s2 : bytes),
+       Forall nonul lines ->
+       TrViOp.getb lines (g_r1 g) = Some s1 ->
+       TrViOp.getb lines (g_r2 g) = Some s2 ->
+       TrViOpModel.off_ok (chop s1) (g_o1 g) ->
+       TrViOpModel.off_ok (chop s2) (g_o2 g) ->
+       g_ln g = TrViOp.lnb ln ->
+       TrViOp.op_text lines (g_r1 g) (g_o1 g) (g_r2 g) (g_o2 g) ln = flat (region_text (map chop lines) g) /\
+       TrViOp.region_in lines (g_r1 g) (TrViOp.op_o1 ln (g_o1 g)) (g_r2 g) (TrViOp.op_o2 ln (g_o2 g)).
+Proof. exact TrViOpModel.op_text_model. Qed.
+Print Assumptions C08_tr_region_text_model.
+
+Theorem C08_tr_delete_line_model : forall (lines : list bytes) (g : region) (s1 s2 : bytes),
+       Forall nonul lines ->
+       TrViOp.getb lines (g_r1 g) = Some s1 ->
+       TrViOp.getb lines (g_r2 g) = Some s2 ->
+       TrViOpModel.off_ok (chop s1) (g_o1 g) ->
+       TrViOpModel.off_ok (chop s2) (g_o2 g) ->
+       TrViOp.del_pref lines (g_r1 g) (g_o1 g) ++ TrViOp.del_post lines (g_r2 g) (g_o2 g) =
+       flat (sub_l (optl (getl (map chop lines) (g_r1 g))) 0 (g_o1 g) ++ sub_l (optl (getl (map chop lines) (g_r2 g))) (g_o2 g) (-1)) /\
+       TrViOp.sub_in (TrViOp.getb lines (g_r1 g)) 0 (g_o1 g) /\ TrViOp.sub_in (TrViOp.getb lines (g_r2 g)) (g_o2 g) (-1).
+Proof. exact TrViOpModel.del_line_model. Qed.
+Print Assumptions C08_tr_delete_line_model.
+Local Open Scope N_scope.
+Local Open Scope Z_scope.
